@@ -27,7 +27,7 @@ func stampDefs() []*schema.StoreDef {
 		Fields: []schema.Field{{Name: "gen", Kind: schema.KI64}, {Name: "name", Kind: schema.KStr}, {Name: "roles", Kind: schema.KList}, {Name: "hub", Kind: schema.KStr, FK: "hubs"},
 			{Name: "hubs", Kind: schema.KLinks, FK: "hubs"}, {Name: "meta", Kind: schema.KMap},
 			{Name: "attrs", Kind: schema.KMap, Prefix: []string{"px", "py"}}, // a map stored two buckets below the entity
-			{Name: "blank", Kind: schema.KMap}}, // a map which never has entries
+			{Name: "blank", Kind: schema.KMap}},                              // a map which never has entries
 		Unique: []schema.UniqueDef{{Field: "name"}},
 		SetIdx: []string{"roles"},
 		FKs:    []schema.FKDef{{Field: "hub", Target: "hubs", Kind: schema.FkConstraint, Nullable: false, Cascade: boltz.CascadeNone}},
